@@ -265,6 +265,21 @@ def setBulkAttrs (w : World) (s : Nat) (m : List (Nat × List (Nat × InVal))) :
     let cache := sets.foldl (fun c p => cacheSet c p.1 p.2) st.cache
     (w'.setStore s { db := db', cache := cache }, true)
 
+/-- The collection loop of executeBulkSetRowAttrs for one field: the argument maps of the
+SetRowAttrs calls of one query, in call order, are accumulated per row — the first call of a row is
+cloned, every later call of the same row overwrites key by key (`attr[k] = v`, a null stays a null).
+The result goes to SetBulkAttrs (which sorts the rows). -/
+def accRow (acc : List (Nat × List (Nat × InVal))) (row : Nat) (attrs : List (Nat × InVal)) :
+    List (Nat × InVal) :=
+  match amGet acc row with
+  | none => attrs
+  | some a => attrs.foldl (fun m kv => amSet m kv.1 kv.2) a
+
+def mergeCalls : List (Nat × List (Nat × InVal)) → List (Nat × List (Nat × InVal)) →
+    List (Nat × List (Nat × InVal))
+  | acc, [] => acc
+  | acc, (row, attrs) :: rest => mergeCalls (amSet acc row (accRow acc row attrs)) rest
+
 /-- A new attrStore object over the same file: the cache starts empty. -/
 def reopen (w : World) (s : Nat) : World :=
   w.setStore s { (w.store s) with cache := [] }
